@@ -210,7 +210,7 @@ impl Property for C06 {
         }
     }
     fn rule(&self) -> &'static str {
-        "each case: a generated valid instance (all kinds, removed constraints, threshold constraints, fixed and dependent unused variables) and 1-8 sample ids (small / sparse / huge, unsorted) assigned to 1..n in-bound states (so several ids share a state and different states give equal values), some states omitting variables the problem does not use; one case in four with a state that is another state minus some unused variables; submitted in four groupings (random split of equal states over entries / one entry per id / equal states merged / built incrementally with Samples::add_sample in random order); one case in 30 with a constraint whose terms overflow to NaN or inf. Observed: evaluate_samples, SampleSet::get(id) for every id and grouping, Instance::evaluate(state_id). Non-trivial = >= 2 sample ids and an instance with a constraint or non-constant objective; distinct = fingerprint of (instance, id->state assignment)."
+        "each case: a generated valid instance (all kinds, removed constraints, threshold constraints, fixed and dependent unused variables; one in six first passed through a random pipeline of SDK transformations) and 1-8 sample ids (small / sparse / huge, unsorted) assigned to 1..n in-bound states (so several ids share a state and different states give equal values), some states omitting variables the problem does not use; one case in four with a state that is another state minus some unused variables; submitted in four groupings (random split of equal states over entries / one entry per id / equal states merged / built incrementally with Samples::add_sample in random order); one case in 30 with a constraint whose terms overflow to NaN or inf. Observed: evaluate_samples, SampleSet::get(id) for every id and grouping, Instance::evaluate(state_id). Non-trivial = >= 2 sample ids and an instance with a constraint or non-constant objective; distinct = fingerprint of (instance, id->state assignment)."
     }
     fn assumptions(&self) -> Vec<&'static str> {
         vec![
@@ -227,6 +227,17 @@ impl Property for C06 {
         let g = gen_instance(rng, &cfg);
         let mut inst = g.instance;
         add_threshold_constraints(rng, &mut inst, &g.pool);
+        // one case in six: an instance out of a pipeline of the SDK's own transformations
+        if rng.chance(1, 6) {
+            let (i2, steps) = pipeline_instance(rng, inst);
+            inst = i2;
+            for st in &steps {
+                mon.facet(&format!("pipeline-step:{st}"));
+            }
+            if !steps.is_empty() {
+                mon.facet("instance-out-of-an-SDK-pipeline");
+            }
+        }
         let (hidden, dep_sources) = add_fixed_and_dependent2(rng, &mut inst, regime);
         // one case in 30: a constraint whose finite terms overflow (c*a - c*b + 1 with c = 1e308 at a = b = 10
         // is inf - inf = NaN, at b = -10 it is +inf): both routes must judge such a value alike
